@@ -96,6 +96,10 @@ def data_vs_clang(ctx, mod, src, target, res, what):
         elf, err = refcc.clang_obj(c, os.path.join(d, "u.o"), target, std="c2x", extra=refcc.target_flags(target))
         if elf is None:
             res.discard.append("clang-rejects-input")
+            if os.environ.get("VERIF_DUMP_DISCARDS"):
+                os.makedirs(os.environ["VERIF_DUMP_DISCARDS"], exist_ok=True)
+                with open(os.path.join(os.environ["VERIF_DUMP_DISCARDS"], "input-%s.txt" % sha(src)), "w") as f:
+                    f.write(err[:1500])
             return
         names = []
         for dd in mod.data:
@@ -116,6 +120,10 @@ def data_vs_clang(ctx, mod, src, target, res, what):
             elf, err = refcc.clang_obj(c, os.path.join(d, "u2.o"), target, std="c2x", extra=refcc.target_flags(target))
             if elf is None:
                 res.discard.append("clang-rejects-alignof-table")
+                if os.environ.get("VERIF_DUMP_DISCARDS"):
+                    os.makedirs(os.environ["VERIF_DUMP_DISCARDS"], exist_ok=True)
+                    with open(os.path.join(os.environ["VERIF_DUMP_DISCARDS"], "alignof-%s.txt" % sha(src)), "w") as f:
+                        f.write(err[:1500])
                 return
             y = elf.symbol("__verif_al")
             img = elf.sym_bytes(y)
